@@ -237,6 +237,7 @@ class Item:
         self.loops = {}
         self.body_only = False
         self.proofs = []   # [anchor_text, ghost_text]
+        self.is_const = False
 
 
 def parse_unit(text: str):
@@ -271,6 +272,10 @@ def parse_unit(text: str):
                 chunks.append(("item", cur))
                 cur = None
                 mode = None
+            elif cur is None and d.startswith("GEN "):
+                chunks.append(("lit", "".join(lit)))
+                lit = []
+                chunks.append(("gen", d[4:].strip()))
             elif cur is None:
                 if re.match(r"(PROP|REAL|STATEMENT|TWIN|CANARY|ASSUME)\b", d):
                     continue  # unit-level metadata (lib/vf/verus.py)
@@ -288,6 +293,8 @@ def parse_unit(text: str):
                 cur.refuse.append(d[7:].strip().rstrip("!") + "!")
             elif d == "strip-attrs":
                 cur.strip_attrs = True
+            elif d == "const":
+                cur.is_const = True
             elif d.startswith("as-free-fn:"):
                 cur.as_free_fn = d[len("as-free-fn:"):].strip()
             elif d == "contract:":
@@ -319,8 +326,15 @@ def extract_item(repo: Path, item: Item, log: list, linemap: list, out_line: int
     if len(ms) != 1:
         raise Undecided(f"lost anchor: `{item.anchor}` found {len(ms)} times in {item.file}")
     start = ms[0].start()
-    brace = find_body_open(src, ms[0].end() if not item.anchor.rstrip().endswith("{") else ms[0].end() - 1)
-    end = scan_balanced(src, brace, "{", "}")
+    if item.is_const:
+        semi = ms[0].end() - 1 if item.anchor.rstrip().endswith(";") else src.find(";", ms[0].end())
+        if semi < 0:
+            raise Undecided(f"lost anchor: const {item.id} has no terminator")
+        brace = ms[0].end()
+        end = semi + 1
+    else:
+        brace = find_body_open(src, ms[0].end() if not item.anchor.rstrip().endswith("{") else ms[0].end() - 1)
+        end = scan_balanced(src, brace, "{", "}")
     sig = src[start:brace]
     body = src[brace:end]
     first_line = src.count("\n", 0, start) + 1
@@ -395,6 +409,30 @@ def extract_item(repo: Path, item: Item, log: list, linemap: list, out_line: int
     return text
 
 
+def run_generator(repo: Path, spec: str, log: list) -> str:
+    """//@@ GEN opaque-payloads enum=Packet except=Tiny,Ver
+    One opaque stand-in struct per payload type of the enum's tuple variants
+    (generated from the snapshot's declaration)."""
+    from . import decl
+    parts = spec.split()
+    name = parts[0]
+    kv = dict(p.split("=", 1) for p in parts[1:])
+    if name == "opaque-payloads":
+        d = decl.load(repo)
+        it = d.get(kv["enum"])
+        if it is None or it.kind != "enum":
+            raise Undecided(f"lost anchor: enum {kv['enum']} not found for GEN")
+        skip = set(kv.get("except", "").split(","))
+        tys = []
+        for v in it.variants:
+            for t in v.payload:
+                if t not in skip and t not in tys:
+                    tys.append(t)
+        log.append({"item": f"GEN {spec}", "file": it.file, "edits": [f"generated {len(tys)} opaque stand-in payload structs"]})
+        return "".join(f"#[verifier::external_body]\npub struct {t} {{ _p: u8 }}\n" for t in tys)
+    raise Undecided(f"unknown GEN {name}")
+
+
 def assemble(repo: Path, unit_path: Path):
     chunks = parse_unit(unit_path.read_text())
     out = []
@@ -405,6 +443,10 @@ def assemble(repo: Path, unit_path: Path):
         if kind == "lit":
             out.append(val)
             line += val.count("\n")
+        elif kind == "gen":
+            t = run_generator(repo, val, log)
+            out.append(t)
+            line += t.count("\n")
         else:
             t = extract_item(repo, val, log, linemap, line)
             out.append(t)
